@@ -57,6 +57,17 @@ STREAM_TRUSTED = ["hand-written Lean decoder Model/Rfc.lean (from RFC 9639) and 
                   "executable MD5 in Lean (not reasoned about; checked against the md-5 crate on every stream)",
                   "claxon 0.4.3 as second, independent decoder in the direct oracle"]
 
+def c05_extra(run, tier, bins):
+    """Multi-thread = single-thread also for the experimental estimators (direct MSE, IRLS-MAE), which keep
+    per-thread state: the par stream is run once more in a build with the `experimental` feature."""
+    b, err = run.build_harness("release", features="par,serde,log,decode,experimental")
+    if err:
+        run.proof_problems.append(err)
+        return
+    run.programs += 1
+    run.run_stream(b, "par", ["--cases", 60 if tier == "quick" else 1500], "par@experimental", env={"FVH_EXPERIMENTAL": "1"})
+
+
 PROPS = {
     "C01": {
         "theorem_modules": ["FlacVerif.Theorems.C01", "FlacVerif.Theorems.C01Strict", "FlacVerif.Theorems.C01Wrap"],
@@ -182,6 +193,7 @@ PAR_RULE = ("par stream: corpus (the three confirmed failures of F8: read error,
 
 PROPS.update({
     "C05": {
+        "extra": c05_extra,
         "streams": {"quick": [("par", ["--cases", 150])], "thorough": [("par", ["--cases", 6000])], "search": [("par", ["--cases", 1500])]},
         "diff_prefix": ["c05."], "oracle_fields": ["o_c05"], "rule": PAR_RULE,
         "trusted_base": ["Model/Par.lean: hand model of the thread protocol of par.rs (atomic steps = channel operations and marked scheduling points), tied to the code by replaying every logged run",
